@@ -209,6 +209,7 @@ func (ifs *IfStatement) WriteTo(cw *CodeWriter) {
 	cw.WriteSpace()
 	ifs.ThenBranch.WriteTo(cw)
 	if ifs.ElseBranch != nil {
+		cw.RequireSemi()
 		cw.WriteString(" else ")
 		ifs.ElseBranch.WriteTo(cw)
 	}
